@@ -18,6 +18,7 @@ value semantics.  The calendar predicate of TimeDate/TimeSpan (config ↦ output
 `none` = the configuration is refused) is a parameter `cal`.
 -/
 import EdzedModel.Basic.Val
+import EdzedModel.TimeUnits
 
 namespace Edzed.Persist
 
@@ -131,6 +132,24 @@ structure Blk where
   steps : Nat := 0                       -- `init_steps_completed`: 0, 1 (restore tried), 2 (fully handled)
   restored : Bool := false               -- `_restore_state` was called with the saved state and accepted it
   deriving Repr, Inhabited
+
+/-- microseconds of a duration given in seconds -/
+def usOf (q : Rat) : Int := (q * 1000000).floor
+
+/-- the persistence arguments of a block's constructor, as the application writes them -/
+structure PArgs where
+  persistent : Val := .bool false
+  syncState : Val := .bool true
+  expiration : Val := .none          -- None | number of seconds | string with time units
+  deriving Repr, Inhabited
+
+/-- `AddonPersistence.__init__`: `bool(persistent)`, `bool(sync_state)`, `utils.time_period(expiration)` (which may
+    refuse the value: TypeError / ValueError), the key -/
+def mkBlk (key : String) (kind : Kind) (a : PArgs) (link : Option Link := none) : Except TimeUnits.PErr Blk :=
+  match TimeUnits.timePeriod a.expiration with
+  | .error e => .error e
+  | .ok x => .ok { key := key, kind := kind, persistent := a.persistent.truthy, sync := a.syncState.truthy,
+                   expiration := x.map usOf, link := link }
 
 /-! ## FSM -/
 
